@@ -2,6 +2,7 @@ package rules
 
 import (
 	"fmt"
+	"go/types"
 	"regexp"
 	"strconv"
 	"strings"
@@ -105,7 +106,31 @@ func ruleCSVRows(c *core.Ctx, ruleNames, ruleNums string) {
 						if f.V != nil {
 							fs, _ = strconv.Unquote(f.V.ExactString())
 						}
-						if !regexp.MustCompile(`^%0?\.[0-9]+f$`).MatchString(fs) {
+						fixed := regexp.MustCompile(`^%0?\.[0-9]+f$`)
+						if f.V == nil {
+							// the layout is kept in a field of the reporter: every value the tree ever stores there
+							loc := locOf(x, v.Args[0])
+							if ft, isT := v.Args[0].(*absint.Term); isT && ft.Op == "field" && len(ft.Args) == 2 {
+								if nm, ok := absConstString(ft.Args[1]); ok {
+									loc = "·" + nm // a field of the reporter held by value
+								}
+							}
+							if strings.Contains(loc, "·") {
+								if all, ok := fieldConstStrings(c.P, csvPkg, loc[strings.LastIndex(loc, "·")+len("·"):]); ok {
+									fs = ""
+									for _, one := range all {
+										if !fixed.MatchString(one) {
+											fs = one
+											break
+										}
+										if fs == "" {
+											fs = one
+										}
+									}
+								}
+							}
+						}
+						if !fixed.MatchString(fs) {
 							badNums = append(badNums, fmt.Sprintf("field %d is formatted with %q, not a single fixed-precision verb %%.Nf: precision is not fixed (%%g/%%v/%%e switch notation for tiny or large amounts)", i, fs))
 						} else {
 							fields[fmt.Sprintf("field %d: number %s", i, fs)] = true
@@ -226,10 +251,11 @@ func init() {
 		Explain: "Decides the mechanisms that make the CSV exports lossless: C13-R1 in package csv the output is written only through encoding/csv.Writer (quoting of commas, quotes and line breaks is the library's); C13-R2 the name fields of each row are the parsed Name/Header values untouched; " +
 			"C13-R3 the separator's only source is the constant ',' and row dates use the constant ISO layout; C13-R4 each amount is fmt.Sprintf(constant %.Nf, value) used as is (Go's %f is correctly rounded); C13-R5 the resolved export collects recipe names and sorts them (element order inside a recipe is C01's); " +
 			"C01-R4 and C02-R5 (shared) one row per (recipe, resolved element) and per (day, distinct food) rests on the two merge-by-name loops keeping one slot per name in first-appearance position; " +
-			"C14-R1 (shared) the only constant-only layout in the tree is the ISO layout 2006-01-02 of the CSV rows; C06-R7 (shared) row dates are the log's own dates: nothing converts them to another zone; C04-R1/R3 (shared) names reach the exporter as the tokenizer cut them at the last blank, with the documented trim sets (no field splitting that would collapse inner blanks). Also: C13-R4 requires the value formatted into an amount field to be the entry's own parsed amount. Shared: C07-R6.",
+			"C14-R1 (shared) the only constant-only layout in the tree is the ISO layout 2006-01-02 of the CSV rows; C06-R7 (shared) row dates are the log's own dates: nothing converts them to another zone; C04-R1/R3 (shared) names reach the exporter as the tokenizer cut them at the last blank, with the documented trim sets (no field splitting that would collapse inner blanks). Also: C13-R4 requires the value formatted into an amount field to be the entry's own parsed amount. Shared: C07-R6. C13-R5 the raw-book export hands every record the parser delivers to the row writer on the spot.",
 		NotDecided:  "that reading the output back yields the same strings (follows from R1+R2 and the library), the number of rows per day, what the precision is",
 		Assumptions: []string{"encoding/csv quotes fields per RFC 4180", "fmt's %f formatting is correctly rounded"},
 		Run: func(c *core.Ctx) {
+			ruleRawBookRecords(c, "C13-R5")
 			ruleEveryEntrySeen(c, "C07-R6")
 			ruleCSVWriters(c, "C13-R1")
 			ruleCSVRows(c, "C13-R2", "C13-R4")
@@ -250,4 +276,118 @@ func init() {
 			}
 		},
 	})
+}
+
+// ruleRawBookRecords is C13-R5: the raw-book export writes the records of the file as the parser delivers them —
+// the callback it hands to the parser exports each record it receives without an error, at that moment. Collecting
+// the records into a map first (keyed by header) and exporting from the map loses the first of two records that
+// share a header and prints the second one twice.
+func ruleRawBookRecords(c *core.Ctx, rule string) {
+	fn := c.P.LookupFunc(csvPkg, "CSVDatabase")
+	psc := c.P.LookupFunc(parserPkg, "ParseStreamCallback")
+	if !requireAnchor(c, rule, "csv.CSVDatabase", fn != nil) || !requireAnchor(c, rule, "parser.ParseStreamCallback", psc != nil) {
+		return
+	}
+	var cbs []*ssa.Function
+	for _, p := range psc.Params {
+		if n, ok := p.Type().(*types.Named); ok && n.Obj().Name() == "ParseCallback" {
+			for i, q := range psc.Params {
+				if q == p {
+					cbs = closuresPassedTo(fn, psc, i)
+				}
+			}
+		}
+	}
+	if len(cbs) == 0 {
+		c.Note(rule + ": CSVDatabase hands no callback of its own to the parser (the records reach the export some other way; not decided)")
+		return
+	}
+	for _, cb := range cbs {
+		if len(cb.Params) != 2 {
+			continue
+		}
+		fname := core.FuncName(cb)
+		pos := c.P.Pos(cb.Pos())
+		c.Universe(rule+" raw-book callbacks", fname+" ("+pos+")")
+		x := newExec(c)
+		node := absint.Sym{Name: "node"}
+		x.Hooks.Call = func(x *absint.Exec, s *absint.State, site ssa.CallInstruction, callee *ssa.Function, fnv absint.Value, args []absint.Value) (absint.Value, bool) {
+			name := ""
+			if callee != nil {
+				name = callee.Name()
+			} else if site.Common().IsInvoke() {
+				name = site.Common().Method.Name()
+			}
+			if name == "Process" {
+				s.SetData("exported", "1")
+				return x.Fresh(s, "perr"), true
+			}
+			return nil, false
+		}
+		st := x.NewState(cb, []absint.Value{node, absint.Const{Nil: true}}, nil)
+		x.AssumeNil(st, node, false)
+		terms := x.Run(st)
+		if !account(c, x, rule, cb) {
+			continue
+		}
+		bad := ""
+		paths := 0
+		for _, tm := range terms {
+			if tm.Kind != "return" || len(tm.Ret) != 2 {
+				continue
+			}
+			paths++
+			if tm.State.Data["exported"] != "1" && bad == "" {
+				bad = fmt.Sprintf("%s: a record delivered without an error is not exported by the callback itself (%s): the export is made from a collection of the records, so records that share a header are not written once each, in file order", c.P.Pos(tm.Pos), x.Valuation(tm.State))
+			}
+		}
+		if bad != "" {
+			c.Violate(rule, fname, "each-record", pos, bad, nil)
+		} else {
+			c.Discharge(rule, fname, "each-record", pos, fmt.Sprintf("every record delivered without an error is handed to Process on the spot (%d paths)", paths))
+		}
+	}
+}
+
+// fieldConstStrings: the compile-time strings that the tree ever stores into the field called name of a structure
+// declared in package pkgPath (directly, or through parameters of named functions whose every call hands over a
+// constant). False when some store is not such a string or the field's address escapes.
+func fieldConstStrings(p *core.Program, pkgPath, name string) ([]string, bool) {
+	constStringsProg = p
+	var out []string
+	for _, fn := range p.Funcs {
+		for _, b := range fn.Blocks {
+			for _, in := range b.Instrs {
+				fa, ok := in.(*ssa.FieldAddr)
+				if !ok || fieldName(fa.X.Type(), fa.Field) != name {
+					continue
+				}
+				pt, ok := fa.X.Type().Underlying().(*types.Pointer)
+				if !ok {
+					continue
+				}
+				nt, ok := pt.Elem().(*types.Named)
+				if !ok || nt.Obj().Pkg() == nil || nt.Obj().Pkg().Path() != pkgPath {
+					continue
+				}
+				for _, r := range *fa.Referrers() {
+					switch r := r.(type) {
+					case *ssa.Store:
+						if r.Addr != ssa.Value(fa) {
+							return nil, false
+						}
+						one, ok := constStrings(r.Val, 0)
+						if !ok {
+							return nil, false
+						}
+						out = append(out, one...)
+					case *ssa.UnOp, *ssa.DebugRef:
+					default:
+						return nil, false
+					}
+				}
+			}
+		}
+	}
+	return out, len(out) > 0
 }
